@@ -694,6 +694,9 @@ Fixpoint c17_browser (E : env) (cfg : config) (just : option istr) (l : list wst
         | Some t =>
             (* tag 4: the generator sends this request with the jar exactly as the login left it
                (between other steps the harness may have tampered with the cookies) *)
+            (* ... among them the browser following the redirect the completed login ended with: a login that sends
+               the browser back to the callback address has not healed anything (it starts over: a loop) *)
+            negb (N.eqb (w_tag s) 4 && N.eqb (q_path rq) (c_callback cfg)) &&
             if N.eqb (w_tag s) 4 && gated E cfg rq && comfortably_valid E cfg (w_now s) t
                && domain_ok E cfg (ti_email (tok E t)) && roles_ok E cfg (TTok t)
             then forwarded o || (q_options rq && negb (N.eqb (q_origin rq) 0) && N.eqb (r_status o) 200)
